@@ -130,7 +130,7 @@ def inspect(res, sc, cwd, exp, how, killed, detail, sigbase):
         states.append(st)
         if st == "other":
             add_violation(res, dict(sigbase, kind="half-written"),
-                          f"{how}: {f['name']} is neither its original ({len(f["data"])} B) nor what the same command prints for that file alone: {len(data)} B on disk",
+                          f"{how}: {f['name']} is neither its original ({len(f['data'])} B) nor what the same command prints for that file alone: {len(data)} B on disk",
                           dict(detail, on_disk_head=data[:300], file_index=i))
     # prefix property: new* (orig|new) orig*
     seen_orig = False
